@@ -149,3 +149,8 @@ def c16_stale_required_repaired(failure):
     ic = any(st[0] == 'ser' and st[2] for st in script)
     return removed and ic and isinstance(o.get('without'), str) and 'requires at least following children' in o['without'] \
         and isinstance(o.get('with'), str) and o['with'].lstrip().startswith('<')
+
+
+def history_shares_child_object(failure):
+    """the history hands one child OBJECT to two parents or twice to the same parent (ops share_out / add_again)"""
+    return any(op and op[0] in ('share_out', 'add_again') for op in failure['input'].get('ops', []))
